@@ -567,11 +567,56 @@ fn show_body(w: &World, tx: &Transaction) -> String {
     s
 }
 
-fn exec(sc: &Scenario) -> String {
+/// which way the first balancing operation went, as far as the public API shows it (only used to label the case
+/// for the evidence's case distribution)
+fn shape_of(w: &World, pre: &Option<(Value, Value, BigNum, usize)>, res: &str) -> String {
+    match res {
+        "err" => return "err".into(),
+        "panic" => return "panic".into(),
+        _ => {}
+    }
+    let (tin, tout, fee, n_before) = match pre { Some(x) => x.clone(), None => return "pre-err".into() };
+    let outs = verif_builder_outputs(&w.tb);
+    let added: Vec<TransactionOutput> = (n_before..outs.len()).map(|i| outs.get(i)).collect();
+    let has_assets = |o: &TransactionOutput| o.amount().multiasset().map(|m| m.len() > 0).unwrap_or(false);
+    if res == "f" {
+        let exact = tout.checked_add(&Value::new(&fee)).map(|x| x == tin).unwrap_or(false);
+        return if exact { "exact".into() } else { "burn".into() };
+    }
+    match added.len() {
+        0 => "topup-only".into(),
+        1 => if has_assets(&added[0]) { "assets1".into() } else { "single".into() },
+        n => if !has_assets(&added[n - 1]) { "assetsN+pure".into() } else if n == 2 && !has_assets(&added[0]) { "assets1+x".into() } else { "assetsN".into() },
+    }
+}
+
+fn exec(sc: &Scenario) -> String { exec_shape(sc).0 }
+
+fn exec_shape(sc: &Scenario) -> (String, String) {
     let mut w = new_world(sc);
     let mut recs = vec![];
     let mut last_tx = None;
-    for op in &sc.ops { recs.push(run_op(&mut w, op, &mut last_tx)); }
+    let mut shape: Option<String> = None;
+    for op in &sc.ops {
+        let balancing = matches!(op, Op::Change(..) | Op::SelChange(..)) && shape.is_none();
+        let pre = if balancing {
+            catch(|| -> Option<(Value, Value, BigNum, usize)> {
+                Some((w.tb.get_total_input().ok()?, w.tb.get_total_output().ok()?, w.tb.min_fee().ok()?, verif_builder_outputs(&w.tb).len()))
+            }).ok().flatten()
+        } else { None };
+        let rec = run_op(&mut w, op, &mut last_tx);
+        if balancing {
+            let policy = match (&w.tb.get_fee_if_set(), sc.ops.iter().any(|o| matches!(o, Op::Fee(_))), sc.ops.iter().any(|o| matches!(o, Op::MinFee(_)))) {
+                (_, true, true) => "feeboth", (_, true, false) => "exactly", (_, false, true) => "notless", _ => "unspec" };
+            shape = Some(format!("{}/{}", shape_of(&w, &pre, &rec.res), policy));
+        }
+        recs.push(rec);
+    }
+    let shape = shape.unwrap_or("none".into());
+    (exec_rest(sc, w, recs, last_tx), shape)
+}
+
+fn exec_rest(_sc: &Scenario, w: World, recs: Vec<OpRec>, last_tx: Option<Transaction>) -> String {
     let mut s = format!("ok R {}", recs.len());
     for r in &recs { s.push(' '); s.push_str(&r.res); }
     // the builder's state
@@ -620,7 +665,7 @@ fn gen_assets(r: &mut Rng, n_assets: u64, n_pol: u64, big: bool) -> Option<Vec<(
     for k in 0..n_assets {
         let p = policy_bytes(r.below(n_pol.max(1)));
         let n = if big { let mut v = format!("asset-number-{:04}-padding-pad", k).into_bytes(); v.truncate(32); v } else { gen_name(r) };
-        let q = match r.below(8) { 0 => 1, 1 => r.u64_edge() >> r.below(40), 2 => r.below(1 << 33), _ => r.range(1, 1000) };
+        let q = match r.below(40) { 0..=4 => 1, 5..=9 => r.u64_edge() >> r.below(40), 10..=14 => r.below(1 << 33), 15 => 0, _ => r.range(1, 1000) };
         es.push((p, n, b64(q)));
     }
     Some(es)
@@ -692,7 +737,9 @@ fn gen_scenario(r: &mut Rng, stream: u32) -> Scenario {
                 let amt = if r.chance(1, 2) { q64 } else { r.range(1, q64.max(1)) };
                 pre.push(Op::Mint(r.chance(1, 4), p, n, format!("-{}", amt)));
             } else {
-                let amt: i128 = match r.below(6) { 0 => r.u64_edge() as i128, 1 => -(r.range(1, 50) as i128), 2 => 0, _ => r.range(1, 1_000_000) as i128 };
+                let amt: i128 = match r.below(12) { 0 | 1 => r.u64_edge() as i128, 2 | 3 => -(r.range(1, 50) as i128), 4 => 0,
+                    5 => *r.pick(&[-(1i128 << 64), -(1i128 << 64) + 1, (1i128 << 64) - 1, -(1i128 << 63), 1i128 << 63, -(1i128 << 64) - 1, 1i128 << 64]),
+                    _ => r.range(1, 1_000_000) as i128 };
                 pre.push(Op::Mint(r.chance(1, 4), policy_bytes(r.below(N_POLICIES)), gen_name(r), format!("{}", amt)));
             }
         }
@@ -754,10 +801,13 @@ fn main() {
             for k in 0..n {
                 let stream = match k % 12 { 0 | 1 => 0, 2 => 1, 3 | 4 => 2, 5 | 6 => 3, 7 | 8 => 4, 9 | 10 => 5, _ => 6 };
                 let mut sc = gen_scenario(&mut r, stream);
-                if matches!(stream, 0 | 1 | 2 | 4) && r.chance(1, 3) {
-                    let delta = *r.pick(&[0i64, 0, 1, 1000, 500_000, 900_000, 1_200_000, -1, 2_000_000]);
+                if matches!(stream, 0 | 1 | 2 | 4) && r.chance(1, 2) {
+                    let delta = *r.pick(&[0i64, 0, 0, 0, 1, 1000, 500_000, 900_000, 1_200_000, -1, 2_000_000]);
                     if let Some(s2) = steer(&sc, delta, &mut r) { sc = s2; }
                 }
+                // label = generator stream : how the first balancing operation went on the implementation
+                let shape = std::panic::catch_unwind(AssertUnwindSafe(|| exec_shape(&sc).1)).unwrap_or("scenario-panic".into());
+                sc.label = format!("{}:{}", sc.label, shape);
                 let line = sc.show();
                 let toks: Vec<String> = line.split_whitespace().map(|s| s.to_string()).collect();
                 let res = exec_line(&toks);
